@@ -188,7 +188,7 @@ def LStep (o o' : Option Nat) (L L' : Ledger) : Prop :=
 
 /-- unfold a Buffer method into its weakest precondition -/
 macro "buf_wp" : tactic => `(tactic|
-  simp only [Buf.ctorCap, Buf.ctorData, Buf.attach, Buf.assign, Buf.assignSelf, Buf.prepend, Buf.prependSelf, Buf.prependSub,
+  simp only [Buf.ctorCap, Buf.ctorData, Buf.attach, Buf.assign, Buf.assignSelf, Buf.prepend, Buf.prependSelf, Buf.prependSub, Buf.appendSub, Buf.assignSub,
     Buf.resize, Buf.termIfOwning, Buf.append, Buf.appendSelf, Buf.home, Buf.removeFront, Buf.removeBack,
     Buf.reserve, Buf.clear, Buf.default, Buf.contents, Buf.free, Buf.destroy, Buf.ownId, newBlock, Store.release,
     Buf.owning, Store.write, Store.load, noOverlap, LStep, newCap,
